@@ -105,8 +105,16 @@ pub fn decode_random(src: &mut Source) -> Box<dyn Case> {
     let mut titles: Vec<String> = Vec::new();
     // what the user is in the middle of typing: (target text, characters typed so far)
     let mut typing: Option<(Vec<char>, usize)> = None;
-    while ops.len() < 60 && (ops.len() < 2 || src.chance(9, 10)) {
-        match src.weighted(&[8, 8, 2, 3, 2, 6, 1, 1]) {
+    while (ops.len() < 60 || (ops.len() > 1000 && ops.len() < 1260)) && (ops.len() < 2 || src.chance(9, 10)) {
+        match src.weighted(&[80, 80, 20, 30, 20, 60, 10, 10, if ops.len() < 4 { 1 } else { 0 }]) {
+            8 => {
+                // a catalogue of more than a thousand records loaded at once
+                for _ in 0..src.range(1030, 1200) {
+                    let t = format!("{} {}", src.pick(&vocab), src.pick(&vocab));
+                    titles.push(t.clone());
+                    ops.push(Op::Add(t, src.below(5) * 10));
+                }
+            }
             6 => {
                 // reload: clear and fill with exactly as many records as the store held
                 let n = titles.len();
@@ -194,8 +202,8 @@ pub fn decode_random(src: &mut Source) -> Box<dyn Case> {
             }
             3 => ops.push(Op::Limit(src.below(7))),
             _ => {
-                let l = src.pick(&["", "<", "[[", "a", "{", "<em>", "«", "【"]).to_string();
-                let r = src.pick(&["", ">", "]]", "a", "}", "</em>", "»", "】"]).to_string();
+                let l = src.pick(&["", "<", "[[", "a", "{", "<em>", "«", "【", "\u{1b}[1m", "«\u{a0}", "\t"]).to_string();
+                let r = src.pick(&["", ">", "]]", "a", "}", "</em>", "»", "】", "\u{1b}[0m", "\u{a0}»", "\t"]).to_string();
                 ops.push(Op::Markers(l, r));
             }
         }
@@ -215,6 +223,11 @@ pub fn op_json(op: &Op) -> Value {
 
 impl Case for C10Case {
     fn describe(&self) -> Value {
+        if self.ops.len() > 120 {
+            let head: Vec<Value> = self.ops.iter().take(30).map(op_json).collect();
+            let tail: Vec<Value> = self.ops.iter().rev().take(40).rev().map(op_json).collect();
+            return json!({"lang": self.lang, "n_ops": self.ops.len(), "first_ops": head, "last_ops": tail});
+        }
         json!({"lang": self.lang, "ops": self.ops.iter().map(op_json).collect::<Vec<_>>()})
     }
     fn key(&self) -> u64 {
@@ -296,6 +309,7 @@ impl Case for C10Case {
                     ctx.label_if(stale_window, "search-after-change-after-empty-search");
                     ctx.label_if(add_after_clear, "search-after-add-after-clear");
                     ctx.label_if(!got.is_empty(), "search-with-hits");
+                    ctx.label_if(recs.len() > 1000, "store>1000");
                 }
             }
         }
